@@ -533,8 +533,7 @@ package http2
 //@ func (*HPACK).addDynamic
 //@ props C03 C04
 //@ requires tbl: hpackOK(hp) && hf != nil
-//@ modifies hp.dynamic, capacity(hp.dynamic), family(HeaderField), anybytes()
-//@ opt noframe=elem
+//@ modifies hp.dynamic, capacity(hp.dynamic), family(HeaderField)
 //@ let ev = len(old(hp.dynamic)) + 1 - len(hp.dynamic)
 //@ # the table afterwards is a suffix of (old table ++ copy of hf); the copy is the newest entry unless it was evicted too
 //@ ensures suffix: ev >= 0 && ev <= len(old(hp.dynamic)) + 1 && forall(k, 0, len(hp.dynamic) - 1, hp.dynamic[k] == old(hp.dynamic)[ev + k])
@@ -600,6 +599,8 @@ package http2
 //@ # an index returned by the search is a valid index into the static or the dynamic table
 //@ ensures valid: r0 == 0 || r0 < 62 + len(hp.dynamic)
 //@ ensures full: r1 ==> r0 > 0
+//@ # a dynamic-table index is only returned for a full match (names alone are matched in the static table)
+//@ ensures dynfull: r0 >= 62 ==> r1
 
 //@ func appendString
 //@ props C04
@@ -609,6 +610,31 @@ package http2
 //@ opt noframe=true
 //@ let o = len(dst)
 //@ ensures grow: len(r0) > o
+//@ ensures keep: old(bufsep(dst, src)) ==> r0[:o] == old(dst)
 //@ # raw strings: H bit clear, the length as a 7-bit prefix integer, then the octets themselves (RFC 7541 section 5.2)
 //@ ensures rawlen: !encode && len(src) < 2097152 ==> r0[o] < 128 && spec.intVal(r0[o:], 7) == len(src) && spec.intLen(r0[o:], 7) + len(src) == len(r0) - o
 //@ ensures hbit: encode ==> r0[o] >= 128
+
+//@ func (*HPACK).AppendHeader
+//@ props C04 C18
+//@ requires tbl: hpackOK(hp) && hf != nil
+//@ split hf.sensible, store, hp.pendingSizeUpdate
+//@ modifies capacity(dst), hp.pendingSizeUpdate, hp.dynamic, capacity(hp.dynamic), family(HeaderField), anybytes()
+//@ opt noframe=true
+//@ let o = len(dst)
+//@ ensures grow: len(r0) > o
+//@ ensures flag: !hp.pendingSizeUpdate
+//@ # Which fields enter the encoder's table (it must be exactly those sent as literals with incremental
+//@ # indexing, because those are the ones the peer's decoder adds, RFC 7541 section 6.2.1): a field that is not
+//@ # sensitive, is to be stored, has no full match, and either has a name match or the table is in use.
+//@ # An entry larger than the table empties it (section 4.4).
+//@ let sens = old(hf.sensible)
+//@ let nodyn = old(hp.DisableDynamicTable)
+//@ let add = !sens && store && !local(fullMatch) && (local(index) > 0 || !nodyn)
+//@ ensures stored: add ==> called((*HPACK).addDynamic) == 1
+//@ ensures kept: !add ==> called((*HPACK).addDynamic) == 0 && sameslice(hp.dynamic, old(hp.dynamic))
+//@ # sensitive fields are never stored (section 6.2.3) and never Huffman-coded by this encoder
+//@ ensures secret: sens ==> sameslice(hp.dynamic, old(hp.dynamic)) && local(bits) == 4
+//@ # prefix widths: 7 for indexed, 6 for incremental indexing, 4 for without/never indexing
+//@ ensures widths: (local(fullMatch) && !sens ==> local(bits) == 7) && (add ==> local(bits) == 6) &&
+//@ |   (!add && !(local(fullMatch) && !sens) && local(index) > 0 ==> local(bits) == 4)
